@@ -849,6 +849,58 @@ func sharedProbe() string {
 }
 
 var lastProbe string
+var codesCount int
+
+// codesProbe: translating a codon with one genetic code must not change what another code gives.
+// For the ambiguous codons whose expansions are translated differently by the three codes (parents of
+// AGA/AGG, TGA, ATA), taken in several orders of the codes, the translation must be the common amino
+// acid of the plain expansions under the SAME code (plain codons, translated through the same call),
+// X when they differ - whatever was translated before in this process
+func codesProbe() string {
+	iupac := map[byte]string{'A': "A", 'C': "C", 'G': "G", 'T': "T", 'R': "AG", 'Y': "CT", 'H': "ACT", 'N': "ACGT", 'M': "AC", 'W': "AT", 'D': "AGT"}
+	tr := func(codon string, code int) string {
+		t, err := align.NewSequence("c", []uint8(codon), "").Translate(0, code)
+		if err != nil {
+			return "error " + err.Error()
+		}
+		return t.Sequence()
+	}
+	// the plain codons that the three codes (standard, vertebrate mitochondrial, invertebrate
+	// mitochondrial: NCBI tables 1, 2, 5) translate differently
+	facts := map[string][3]string{"AGA": {"R", "*", "S"}, "AGG": {"R", "*", "S"}, "TGA": {"*", "W", "W"}, "ATA": {"I", "M", "M"}, "ATG": {"M", "M", "M"}, "TAA": {"*", "*", "*"}}
+	for _, order := range [][]int{{0, 1, 2}, {2, 1, 0}, {1, 2, 0}, {0, 2, 1}} {
+		for _, code := range order {
+			for codon, want := range facts {
+				for _, form := range []string{codon, strings.ToLower(codon), strings.ReplaceAll(codon, "T", "U")} {
+					if got := tr(form, code); got != want[code] {
+						return fmt.Sprintf("codon %s with genetic code %d is translated %q, the code's table says %q (codes used in the order %v)", form, code, got, want[code], order)
+					}
+				}
+			}
+			for _, codon := range []string{"AGR", "TGR", "ATH", "ATR", "ATM", "ATW", "ATD", "AGN", "MGA", "TGN", "ATN"} {
+				want := ""
+				for _, a := range iupac[codon[0]] {
+					for _, b := range iupac[codon[1]] {
+						for _, c := range iupac[codon[2]] {
+							x := tr(string([]rune{a, b, c}), code)
+							if want == "" {
+								want = x
+							} else if want != x {
+								want = "X"
+							}
+						}
+					}
+				}
+				for _, form := range []string{codon, strings.ToLower(codon), strings.ReplaceAll(codon, "T", "U")} {
+					if got := tr(form, code); got != want {
+						return fmt.Sprintf("codon %s with genetic code %d is translated %q, its plain expansions give %q with the same code (codes used in the order %v)", form, code, got, want, order)
+					}
+				}
+			}
+		}
+	}
+	return ""
+}
 
 func checkQueries(test string) func(c qCase) (pbt.Outcome, error) {
 	return func(c qCase) (o pbt.Outcome, err error) {
@@ -861,6 +913,13 @@ func checkQueries(test string) func(c qCase) (pbt.Outcome, error) {
 		defer func() {
 			after := sharedProbe()
 			lastProbe = after
+			// a change of this kind stays for the rest of the process: looked at every 16th history
+			codesCount++
+			if err == nil && codesCount%16 == 1 {
+				if d := codesProbe(); d != "" {
+					err = fmt.Errorf("translations with one genetic code changed what another code gives (state shared through the package): %s", d)
+				}
+			}
 			if err == nil {
 				if after != probe {
 					err = fmt.Errorf("the history of queries changed state shared by all alignments (observed on fixed inputs of the harness)\n before: %s\n after : %s", probe, after)
